@@ -35,7 +35,9 @@ Inductive hq :=
 | HInner (h : href)
 | HOuter (h : href)
 (* a collection of roots with patterns (is_case = true, is_re = false): Hier/TraceRoots.v *)
-| HRoots (k : hkind) (n : id) (x : sel) (r : bool) (pats : list str) (roots : list root).
+| HRoots (k : hkind) (n : id) (x : sel) (r : bool) (pats : list str) (roots : list root)
+(* the answer IN YIELD ORDER from one instance reference through the name map (tag row [2] = the code raises) *)
+| HOrdered (k : okind) (r : bool) (pats : list str) (h : href).
 
 Definition fuel_out : list (list N) := [[0]].
 Definition rows (o : option (list href)) : list (list N) :=
@@ -91,6 +93,12 @@ Definition hanswer (s : state) (q : hq) : list (list N) :=
       | HKWire => match usum s n with Some u => rows (get_hwires_roots s x r pat u roots) | None => fuel_out end
       | HKCable => match usum s n with Some u => rows (get_hcables_roots s x r pat u roots) | None => fuel_out end
       | HKInst => [[1]]
+      end
+  | HOrdered k r pats h =>
+      match get_ordered s k r (absolute_b true false) (matches_b true false) pats h with
+      | None => fuel_out
+      | Some None => [[2]]
+      | Some (Some l) => rows (Some l)
       end
   end.
 
